@@ -14,6 +14,7 @@ from ..sx import terms as T
 from .common import (P, box, check_defined, evalf, load_sym, model_floats, not_close, paths, rng, K, Q, Sym, lift,
                      simp, fresh)
 from .c13 import OIL_BOX, _uf, _var_atom
+from .common import SymI  # noqa: F401
 
 
 def _at(term, p_atom, value):
@@ -254,5 +255,95 @@ def job_visc(job):
         check_defined(job, f"viscosity/{side}", r)
 
 
+def replay_array(model, dtype="f8", intparams=False):
+    """The orderings on the array entry points (one call with both pressures), real code."""
+    import numpy as np
+    from bluebonnet.fluids import oil
+    m = model_floats(model, ["T", "api", "gg", "rsi", "p1", "p2"])
+    if intparams:
+        for k in ("T", "api", "rsi"):
+            m[k] = int(round(m[k]))
+    T_, api, gg, rsi = _oil_args(m)
+    pb = float(oil.pressure_bubblepoint_Standing(T_, api, gg, rsi))
+    ps = [m["p1"], m["p2"]]
+    if dtype.startswith("i"):
+        ps = [float(round(x)) for x in ps]
+    if not (pb > 50 and 15 <= ps[0] < ps[1] <= 2.5 * pb):
+        return False, {"what": "model point outside the property's quantifier on the real code", "inputs": m, "pb": pb}
+    arr = np.array(ps, dtype={"f8": "float64", "i8": "int64", "i4": "int32"}[dtype])
+    with np.errstate(all="ignore"):
+        rs = np.asarray(oil.solution_gor_Standing(T_, arr, api, gg, rsi), float)
+        bo = np.asarray(oil.b_o_Standing(T_, arr, api, gg, rsi), float)
+    problems = []
+    for j, p in enumerate(ps):
+        if p < pb:
+            back = float(oil.pressure_bubblepoint_Standing(T_, api, gg, float(rs[j])))
+            if abs(back - p) > 1e-8 * p:
+                problems.append(f"p_b(R_s(p)) = {back!r} for p = {p!r} below the bubble point {pb!r}")
+        elif rs[j] != rsi:
+            problems.append(f"R_s({p!r}) = {rs[j]!r} at/above p_b={pb!r}, R_si={rsi!r}")
+    if rs[0] > rs[1] * (1 + 1e-12):
+        problems.append(f"R_s decreasing: {rs.tolist()} at {ps}")
+    if ps[1] < pb and not bo[0] < bo[1]:
+        problems.append(f"B_o not increasing below the bubble point: {bo.tolist()} at {ps}")
+    return bool(problems), {"what": f"array entry points on {arr.dtype}{' with Python-int parameters' if intparams else ''}: "
+                                    + ("; ".join(problems[:2]) or "orderings hold"), "inputs": m, "pressures": ps}
+
+
+def job_array(job):
+    """The same orderings through the array entry points (every pressure array is an oil input too): one call with
+    both pressures, float64 and int64 arrays, float and Python-int scalar parameters."""
+    from ..shims.np_shim import SymArray, Uninit
+    from ..sx.sym import Sym as _Sym
+    sp = _uf("c_o_Spivey", like=__import__("bluebonnet.fluids.oil", fromlist=["x"]).oil_compressibility_undersat_Spivey)
+    oil = load_sym("bluebonnet.fluids.oil", oil_compressibility_undersat_Spivey=sp)
+    job.encoded(oil, "solution_gor_Standing", "b_o_Standing", "pressure_bubblepoint_Standing")
+    job.stub("oil_compressibility_undersat_Spivey: positive uninterpreted function")
+    job.bound(array_form="length 2, dtypes float64 / int64, scalar parameters float or Python int (whole numbers)")
+    for dt, intp in (("f8", False), ("i8", False), ("i8", True), ("f8", True)):
+        ranges = dict(OIL_BOX)
+        ranges.update(p1=(15, 50000), p2=(15, 50000))
+        vs, dom = box(job, _integer=("T", "api", "rsi") if intp else (), **ranges)
+        a4 = (vs["T"], vs["api"], vs["gg"], vs["rsi"])
+        T_, api, gg, rsi = a4
+        p1, p2 = vs["p1"], vs["p2"]
+        pb, pbc = _pb_conds(oil, a4, [p1, p2])
+        dom = dom + pbc + [T.b_lt(P(p1), P(p2))]
+        tagv = f"{ {'f8': 'float64', 'i8': 'int64'}[dt] }{',python-int parameters' if intp else ''}"
+        rp = (replay_array, {"dtype": dt, "intparams": intp})
+
+        def run():
+            arr = SymArray([p1, p2], dt)
+            rs = oil.solution_gor_Standing(T_, arr, api, gg, rsi)
+            bo = oil.b_o_Standing(T_, arr, api, gg, rsi)
+            return rs, bo, bool(p1 >= pb), bool(p2 >= pb)
+        res = paths(job, run, dom, max_paths=32)
+        seen = set()
+        for k, r in enumerate(res):
+            if r.exc is not None:
+                job.prove(f"array[{tagv}]/raises {type(r.exc).__name__}[path{k}]", r.pc, bound="oil box", replay=rp, note=str(r.exc)[:80])
+                continue
+            rs, bo, a1, a2 = r.value
+            seen.add((a1, a2))
+            tag = f"array[{tagv}; p1 {'>=' if a1 else '<'} pb, p2 {'>=' if a2 else '<'} pb]"
+            bad = [x for x in list(rs.d) + list(bo.d) if isinstance(x, Uninit)]
+            if bad or rs.dtype_tag not in ("f8", "f4") or bo.dtype_tag not in ("f8", "f4"):
+                job.prove(f"{tag}/floating result without uninitialised elements (got {rs.dtype_tag}, {bo.dtype_tag})", r.pc, bound="oil box", replay=rp)
+                if bad:
+                    continue
+            for j, (pj, aj) in enumerate(((p1, a1), (p2, a2))):
+                if aj:
+                    job.prove(f"{tag}/Rs[{j}]==Rsi", r.pc + [not_close(rs.d[j], rsi)], bound="oil box", replay=rp)
+                else:
+                    back = oil.pressure_bubblepoint_Standing(T_, api, gg, rs.d[j])
+                    job.prove(f"{tag}/pb(Rs[{j}])==p", r.pc + [not_close(back, pj)], bound="oil box", replay=rp)
+            job.prove(f"{tag}/Rs non-decreasing", r.pc + [T.b_lt(P(rs.d[1]), P(rs.d[0]))], bound="oil box", replay=rp)
+            if not a2:
+                job.prove(f"{tag}/Bo increasing below pb", r.pc + [T.b_le(P(bo.d[1]), P(bo.d[0]))], bound="oil box", replay=rp)
+            job.prove(f"{tag}/reach", r.pc, expect="sat")
+        if seen != {(True, True), (False, True), (False, False)}:
+            job.errors.append(f"array[{tagv}]: expected the three orderings around the bubble point, got {sorted(seen)}")
+
+
 def jobs(tier):
-    return [("continuity", job_continuity), ("Rs", job_rs), ("Bo", job_bo), ("viscosity", job_visc)]
+    return [("continuity", job_continuity), ("Rs", job_rs), ("Bo", job_bo), ("viscosity", job_visc), ("array", job_array)]
